@@ -1,7 +1,7 @@
 #!/bin/bash
 # usage: tools/sweep.sh <tier> <jobs> [ids...]  -- runs checks sequentially, logs under work/sweep/
 tier=${1:-quick}; jobs=${2:-8}; shift 2
-ids="$@"; [ -z "$ids" ] && ids=$(ls /verif/checks | grep '^C')
+ids="$@"; [ -z "$ids" ] && ids=$(ls /verif/checks | grep -E '^C[0-9][0-9]$')
 mkdir -p /verif/work/sweep
 for id in $ids; do
   s=$(date +%s)
